@@ -34,6 +34,7 @@ func main() {
 	noReplay := flag.Bool("noreplay", false, "do not replay counterexamples natively")
 	replayDir := flag.String("replays", "/verif/replays", "replay output directory")
 	verbose := flag.Bool("v", false, "verbose")
+	noWitness := flag.Bool("nowitness", false, "do not validate completed paths natively")
 	replayFile := flag.String("replayfile", "", "replay one counterexample file natively and exit")
 	flag.Parse()
 	t0 := time.Now()
@@ -134,7 +135,7 @@ func main() {
 
 	exit := 0
 	inconclusive := false
-	nViol := 0
+	nViol, nWit, nWitOK := 0, 0, 0
 	knownPrinted := map[string]bool{}
 	for _, r := range results {
 		if *verbose || len(r.Problems) > 0 {
@@ -165,6 +166,20 @@ func main() {
 					continue
 				}
 			}
+			if v.Kind == "witness" {
+				if *noReplay || *noWitness {
+					continue
+				}
+				nWit++
+				wpath := writeReplay(filepath.Join(*replayDir, "witness"), *prop, r.H, v, nWit)
+				if res := replayNative(*repo, *hdir, r.H, wpath); res == "reproduced" {
+					nWitOK++
+				} else {
+					fmt.Printf("INCONCLUSIVE harness=%s ENGINE-MISMATCH on witness %s: %s\n", r.H.Name, wpath, res)
+					inconclusive = true
+				}
+				continue
+			}
 			nViol++
 			path := writeReplay(*replayDir, *prop, r.H, v, nViol)
 			confirmed := "unreplayed"
@@ -186,7 +201,7 @@ func main() {
 		}
 	}
 	if *prop != "" && *only == "" {
-		writeEvidence(*evdir, *prop, *tier, results, eng, time.Since(t0), nViol, *solver)
+		writeEvidence(*evdir, *prop, *tier, results, eng, time.Since(t0), nViol, *solver, nWitOK)
 	}
 	if exit == 0 && inconclusive {
 		exit = 2
@@ -211,7 +226,7 @@ func writeReplay(dir, prop string, h *Harness, v *Violation, n int) string {
 	return path
 }
 
-func writeEvidence(dir, prop, tier string, results []*HarnessResult, eng *Engine, wall time.Duration, nViol int, solver string) {
+func writeEvidence(dir, prop, tier string, results []*HarnessResult, eng *Engine, wall time.Duration, nViol int, solver string, nWitOK int) {
 	os.MkdirAll(dir, 0o755)
 	states, trans, queries, asserts := 0, 0, [3]int{}, 0
 	var solveT time.Duration
@@ -262,14 +277,22 @@ func writeEvidence(dir, prop, tier string, results []*HarnessResult, eng *Engine
 		fl = append(fl, f)
 	}
 	sort.Strings(fl)
-	var as []string
+	as := []string{
+		"A-cap: observable behaviour does not depend on Go's slice growth policy (append reallocates to the exact size in the encoding)",
+		"A-big: every big.Int the EVM sees lies in [0, 2^256)",
+		"A-jp: a join point returns at most the gas it was given; everything else about its result is unconstrained",
+		"host StateDB = event journal (Snapshot = length, RevertToSnapshot = truncate); readers are arbitrary functions of (journal length, arguments)",
+		"hash functions are uninterpreted (congruence only) in the symbolic run and real in the native replay",
+		"map iteration follows insertion order except in harnesses that declare maporder=any",
+		"initialisers of dependency packages that the engine cannot encode leave their variable at its zero value (list: init_skips)",
+	}
 	for a := range assumptions {
 		as = append(as, a)
 	}
 	sort.Strings(as)
 	level := propLevel(prop)
 	cov := map[string]interface{}{
-		"states": states, "transitions": trans, "traces_validated_against_impl": 0,
+		"states": states, "transitions": trans, "traces_validated_against_impl": nWitOK,
 		"samples": samples, "harnesses": harn,
 		"queries":            map[string]interface{}{"unsat": queries[0], "sat": queries[1], "unknown": queries[2], "solver_s": solveT.Seconds(), "solver": solver},
 		"assertions_checked": asserts,
@@ -278,6 +301,8 @@ func writeEvidence(dir, prop, tier string, results []*HarnessResult, eng *Engine
 		"load_s":             eng.loadTime.Seconds(),
 		"explanation":        "states = explored symbolic paths; transitions = SSA instructions executed symbolically; every assertion, panic condition and bound is a separate solver query",
 		"programs":           len(results), "disagreements_checked": asserts,
+		"init_skips":   initSkips(results),
+		"trusted_base": []string{"gosym engine (validated per run by replaying completed symbolic paths natively: traces_validated_against_impl)", "z3 4.8.12 / z3 5.1 / cvc5 1.0", "go/ssa of x/tools v0.29.0", "summaries of math/bits, math/big, uint256 kernels, keccak (uninterpreted)"},
 	}
 	ev := map[string]interface{}{
 		"property_id": prop, "tier": tier, "seed": 0, "level": level, "coverage": cov,
@@ -295,4 +320,25 @@ func propLevel(prop string) string {
 		return "other"
 	}
 	return "model_checking"
+}
+
+func initSkips(results []*HarnessResult) []string {
+	seen := map[string]bool{}
+	var out []string
+	for _, r := range results {
+		if r.exec == nil {
+			continue
+		}
+		for _, s := range r.exec.initSkips {
+			if !seen[s] {
+				seen[s] = true
+				out = append(out, s)
+			}
+		}
+	}
+	sort.Strings(out)
+	if len(out) > 40 {
+		out = append(out[:40], fmt.Sprintf("... and %d more", len(out)-40))
+	}
+	return out
 }
